@@ -365,11 +365,6 @@ Proof. unfold glamfit_c. intros ->. reflexivity. Qed.
 (* ---------------------------------------------------------------------------------------------------- *)
 (* History: the sanity block of the unchanged library does NOT establish the contract. One witness per missing
    clause; each is replayed against the real code (corpus/C13). *)
-Definition mk (rows : N) (rg mx : list N) (nw : N) (cl od : list N) (kv : list (N * bool)) (sm : list bool) (po : list N)
-  (mono : option N) : fitargs :=
-  {| rows := rows; ranges := rg; maxidx := mx; nweights := nw; coordlens := cl; orders := od; knotvecs := kv;
-     smooth_nz := sm; porders := po; monodim := mono |}.
-
 Definition w_valid     := mk 8 [8] [7] 8 [8] [2] [(8, true)] [true] [2] None.
 Definition w_coordlen  := mk 8 [8] [7] 8 [7] [2] [(8, true)] [true] [2] None.      (* coordinate vector one short *)
 Definition w_knotcount := mk 8 [8] [7] 8 [8] [2] [(3, true)] [false] [2] None.     (* order+1 knots: zero splines *)
